@@ -15,7 +15,43 @@ import (
 // C09 — length and area exact up to rounding, additive, total.
 
 type c09Case struct {
-	G *ref.G `json:"g"`
+	G *ref.G `json:"g,omitempty"`
+	// Gen names a deterministically generated large model ("big/<kind>/<layout>/<n>") instead of
+	// spelling out tens of thousands of coordinates in the replay file.
+	Gen string `json:"gen,omitempty"`
+}
+
+// c09Lat is the deterministic lattice of the large instances.
+func c09Lat(i int) pt2 { return pt2{float64((i * 7919) % 1009), float64((i * 104729) % 997)} }
+
+// c09Gen builds the model a Gen string names: one part of n lattice vertices (closed for the
+// area-bearing kinds), surrounded by small parts for the multi-part kinds.
+func c09Gen(gen string) *ref.G {
+	var kind, n int
+	var l int
+	if _, err := fmt.Sscanf(gen, "big/%d/%d/%d", &kind, &l, &n); err != nil {
+		panic("c09: bad generator " + gen)
+	}
+	lay := geom.Layout(l)
+	pts := make([]pt2, 0, n+1)
+	for i := 0; i < n; i++ {
+		pts = append(pts, c09Lat(i+n))
+	}
+	small := closed(c09Lat(1), c09Lat(2), c09Lat(3))
+	f := ref.Counter()
+	switch ref.Kind(kind) {
+	case ref.LineString:
+		return &ref.G{Kind: ref.LineString, Layout: lay, C1: ringC(pts, lay, f)}
+	case ref.LinearRing:
+		return &ref.G{Kind: ref.LinearRing, Layout: lay, C1: ringC(closed(pts...), lay, f)}
+	case ref.Polygon:
+		return &ref.G{Kind: ref.Polygon, Layout: lay, C2: [][]ref.C{ringC(small, lay, f), ringC(closed(pts...), lay, f), {}, ringC(small, lay, f)}}
+	case ref.MultiLineString:
+		return &ref.G{Kind: ref.MultiLineString, Layout: lay, C2: [][]ref.C{{}, ringC(pts, lay, f), ringC(small, lay, f)}}
+	case ref.MultiPolygon:
+		return &ref.G{Kind: ref.MultiPolygon, Layout: lay, C3: [][][]ref.C{{ringC(small, lay, f)}, {}, {ringC(closed(pts...), lay, f), ringC(small, lay, f)}}}
+	}
+	panic("c09: bad generator kind " + gen)
 }
 
 func init() {
@@ -23,7 +59,13 @@ func init() {
 		ID: "C09", Level: "exploration",
 		Rule: "every closed ring of 3 (and 4) free vertices on the 4x4 (3x3 quick for 4) integer grid as LinearRing, single-ring Polygon and single-polygon MultiPolygon; every polyline of 0..3 grid points; every sequence of 0..3 rings over a 6-ring menu (empty, ccw, cw, quad, 1-point, 2-point) as Polygon; every sequence of 0..3 polygons over an 8-polygon menu (incl. no-ring and empty-ring polygons) as MultiPolygon; every sequence of 0..3 lines over a 4-line menu as MultiLineString; plus large instances (rings and lines of 10/100/1000 lattice vertices, polygons of up to 200 rings, multipolygons of up to 260 polygons incl. empty ones) x layouts (extra ordinates are distractors) x exact scalings 2^k; Area/Length vs rational shoelace and 256-bit sqrt sums with a forward error bound; additivity against part accessors; totality (no panic). distinct_nontrivial = distinct geometries with at least one segment",
 		Run:    c09Run,
-		Replay: func(c *engine.Ctx, kind string, raw json.RawMessage) { c09Exec(c, decodeCase[c09Case](raw)) },
+		Replay: func(c *engine.Ctx, kind string, raw json.RawMessage) {
+			if kind == "c09-history" {
+				replayLive(c, kind, "history", decodeCase[liveCase](raw), c09LiveQuery)
+				return
+			}
+			c09Exec(c, decodeCase[c09Case](raw))
+		},
 		Assumptions: []string{
 			"Area is compared on closed rings only (for an unclosed ring the trapezoid form and the shoelace form differ by a boundary term the property does not fix)",
 			"math/big is exact; tolerance (n+4)*2^-52*sum|terms| bounds one summation pass",
@@ -174,6 +216,35 @@ func c09Run(c *engine.Ctx) {
 			add(&ref.G{Kind: ref.MultiPolygon, Layout: l, C3: mp})
 		}
 	}
+	// one very long part per kind: sizes around every power of two up to 2^17 (a summation that is
+	// blocked, split or unrolled beyond some length shows there), generated on demand
+	var gens []string
+	maxK := 15
+	if c.Thorough() {
+		maxK = 17
+	}
+	for k := 11; k <= maxK; k++ {
+		for _, d := range []int{-1, 0, 1} {
+			n := 1<<k + d
+			for _, kind := range []ref.Kind{ref.LineString, ref.LinearRing, ref.Polygon, ref.MultiLineString, ref.MultiPolygon} {
+				for _, l := range []geom.Layout{geom.XY, geom.XYZ} {
+					if l == geom.XYZ && d != 1 {
+						continue
+					}
+					gens = append(gens, fmt.Sprintf("big/%d/%d/%d", int(kind), int(l), n))
+				}
+			}
+		}
+	}
+	c.Note("big_generated_models", len(gens))
+	c.Parallel(len(gens), func(i int) { c09Exec(c, c09Case{Gen: gens[i]}) })
+	// query / in-place change / query histories on live objects
+	hdepth := 3
+	if c.Thorough() {
+		hdepth = 4
+	}
+	c.Note("history_depth", hdepth)
+	exploreLive(c, "c09-history", "history", c09LiveStarts(), hdepth, c09LiveQuery)
 	scales := []int{0, 200}
 	if c.Thorough() {
 		scales = []int{-100, 0, 100, 200}
@@ -281,9 +352,12 @@ func exactMeasures(g *ref.G) (area2 *big.Rat, length *big.Float, n int, absArea2
 func c09Exec(c *engine.Ctx, cs c09Case) {
 	c.Count("evaluations", 1)
 	g := cs.G
+	if g == nil {
+		g = c09Gen(cs.Gen)
+	}
 	keyBase := fmt.Sprintf("%s/%s", g.Kind, layoutName(g.Layout))
 	fail := func(what, desc string) {
-		c.Violate(keyBase+"/"+what, desc+" model="+g.String(), "c09", cs)
+		c.Violate(keyBase+"/"+what, desc+" model="+clipStr(cs.Gen+g.String(), 1500), "c09", cs)
 	}
 	t := g.MustBuild()
 	m, ok := t.(measured)
@@ -369,7 +443,71 @@ func c09Exec(c *engine.Ctx, cs c09Case) {
 		c.Count("additivity_compared", 1)
 	}
 	if n >= 2 {
+		if cs.Gen != "" {
+			c.DistinctStr(cs.Gen)
+			c.Count("big_generated", 1)
+			return
+		}
 		c.DistinctStr(g.String())
 	}
 	c.Sample(g.Kind.String(), 1, cs)
+}
+
+// c09LiveQuery is the query of the history exploration: Area and Length of the live object
+// against the exact measures of the model as it is now.
+func c09LiveQuery(t geom.T, m *ref.G, final bool) string {
+	mm, ok := t.(measured)
+	if !ok {
+		return ""
+	}
+	area, length := mm.Area(), mm.Length()
+	if !final {
+		return ""
+	}
+	area2, exLen, n, absA2, absL := exactMeasures(m)
+	u := math.Ldexp(1, -52)
+	switch m.Kind {
+	case ref.Point, ref.MultiPoint:
+		if area != 0 || length != 0 {
+			return fmt.Sprintf("area=%v length=%v for a point geometry", area, length)
+		}
+		return ""
+	case ref.LineString, ref.MultiLineString:
+		if area != 0 {
+			return fmt.Sprintf("area=%v for a line geometry", area)
+		}
+		area2 = nil
+	}
+	if area2 != nil {
+		want := ref.RatToFloat(area2)
+		want.Quo(want, big.NewFloat(2))
+		if tol := float64(n+4) * u * absA2 / 2; !ref.AbsDiffLE(area, want, tol) {
+			return fmt.Sprintf("Area()=%v but the exact area of its current coordinates is %v", area, want.Text('g', 20))
+		}
+	}
+	if tolL := float64(n+4) * u * absL; !ref.AbsDiffLE(length, exLen, tolL) {
+		return fmt.Sprintf("Length()=%v but the exact length of its current coordinates is %v", length, exLen.Text('g', 20))
+	}
+	return ""
+}
+
+// c09LiveStarts: start geometries with closed rings (so that area stays comparable under the
+// operations that keep rings closed: transform, reverse, part-reverse).
+func c09LiveStarts() []*ref.G {
+	var out []*ref.G
+	sq := closed(pt2{0, 0}, pt2{10, 0}, pt2{10, 10}, pt2{0, 10})
+	hole := closed(pt2{2, 2}, pt2{2, 4}, pt2{4, 4}, pt2{4, 2})
+	tri := closed(pt2{20, 0}, pt2{26, 1}, pt2{23, 9})
+	for _, l := range []geom.Layout{geom.XY, geom.XYZ, geom.XYM, geom.XYZM} {
+		f := ref.Counter()
+		out = append(out,
+			&ref.G{Kind: ref.LineString, Layout: l, C1: ringC([]pt2{{0, 0}, {3, 4}, {3, 10}, {-5, 10}}, l, f)},
+			&ref.G{Kind: ref.LinearRing, Layout: l, C1: ringC(tri, l, f)},
+			&ref.G{Kind: ref.Polygon, Layout: l, C2: [][]ref.C{ringC(sq, l, f), ringC(hole, l, f)}},
+			&ref.G{Kind: ref.MultiLineString, Layout: l, C2: [][]ref.C{ringC(sq, l, f), {}, ringC([]pt2{{1, 1}, {4, 5}}, l, f)}},
+			&ref.G{Kind: ref.MultiPolygon, Layout: l, C3: [][][]ref.C{{ringC(sq, l, f), ringC(hole, l, f)}, {}, {ringC(tri, l, f)}}},
+			ref.NewMultiPoint(l, []int{1, 0, 1}, f),
+		)
+	}
+	return out
 }
